@@ -58,6 +58,7 @@ var ics struct {
 	msgs   []*transfertypes.MsgTransfer
 	bank   *icsBank
 	fail   bool
+	alias  map[string]string // registered ERC20 alias of a coin -> the coin's denomination
 }
 
 func icsKey(grantee, granter sdk.AccAddress) string { return grantee.String() + "|" + granter.String() }
@@ -71,6 +72,16 @@ func icsGetAuthorization(k authzkeeper.Keeper, ctx sdk.Context, grantee, granter
 	if ta, isT := g.auth.(*transfertypes.TransferAuthorization); isT {
 		cp := &transfertypes.TransferAuthorization{Allocations: make([]transfertypes.Allocation, len(ta.Allocations))}
 		copy(cp.Allocations, ta.Allocations)
+		for i := range cp.Allocations {
+			// protobuf decoding turns an empty repeated field into nil (an allowance decreased to exactly zero is stored as
+			// an allocation with an empty spend limit)
+			if len(cp.Allocations[i].SpendLimit) == 0 {
+				cp.Allocations[i].SpendLimit = nil
+			}
+			if len(cp.Allocations[i].AllowList) == 0 {
+				cp.Allocations[i].AllowList = nil
+			}
+		}
 		return cp, g.exp
 	}
 	return g.auth, g.exp
@@ -90,6 +101,11 @@ func icsDeleteGrant(k authzkeeper.Keeper, ctx sdk.Context, grantee, granter sdk.
 func icsTransfer(k transferkeeper.Keeper, goCtx context.Context, m *transfertypes.MsgTransfer) (*transfertypes.MsgTransferResponse, error) {
 	if ics.fail {
 		return nil, errors.New("transfer module refused")
+	}
+	// Haqq's wrapper around the IBC transfer keeper: a registered ERC20 alias of a coin is rewritten to the coin's own
+	// denomination in the message before the transfer proper (x/ibc/transfer/keeper/msg_server.go)
+	if to, ok := ics.alias[m.Token.Denom]; ok {
+		m.Token.Denom = to
 	}
 	from := common.BytesToAddress(sdk.MustAccAddressFromBech32(m.Sender).Bytes())
 	if ics.bank.get(from).LT(m.Token.Amount) {
@@ -305,3 +321,65 @@ func VerifC04_Ics20() {
 }
 
 var _ = big.NewInt
+
+
+// VerifC16_Ics20AliasDenom: the bond denomination may be registered as an ERC20 token pair; a transfer can then name it by
+// its alias erc20/<contract>. The native message debits the sender's aISLM all the same (the wrapper rewrites the
+// denomination), so the precompile call has to end with the same bank balances: here a contract that received value in this
+// transaction (its account is journal-dirty) transfers its own coins.
+func VerifC16_Ics20AliasDenom() {
+	env := zz.NewEnv([]string{"ibc"}, nil)
+	ctx := env.Ctx.WithBlockTime(time.Unix(1700000000, 0))
+	const aliasDenom = "erc20/0x00000000000000000000000000000000000000AA"
+	ics.grants, ics.msgs, ics.fail = map[string]*icsGrant{}, nil, false
+	ics.alias = map[string]string{aliasDenom: "aISLM"}
+	p := Precompile{Precompile: cmn.Precompile{ApprovalExpiration: time.Hour}, stakingKeeper: stakingkeeper.Keeper{Keeper: &sdkstakingkeeper.Keeper{}}}
+	bank := &icsBank{bal: map[common.Address]sdkmath.Int{}, supply: sdk.ZeroInt()}
+	ics.bank = bank
+	exp := map[common.Address]sdkmath.Int{}
+	for _, a := range icsAddrs {
+		b := zz.AnyAmount("bal."+icsTag(a), 100)
+		bank.bal[a], exp[a] = b, b
+		bank.supply = bank.supply.Add(b)
+	}
+	bank.bal[icsEscrow], exp[icsEscrow] = sdk.ZeroInt(), sdk.ZeroInt()
+	supply0 := bank.supply
+	db := statedb.New(ctx, bank, statedb.NewEmptyTxConfig(common.Hash{}))
+	db.GetBalance(icsOrigin)
+	db.GetCodeHash(icsContract)
+	// the signer pays the contract (deposit-and-bridge in one transaction)
+	v := zz.AnyAmount("value", 64)
+	if db.GetBalance(icsOrigin).Cmp(v.BigInt()) < 0 {
+		zz.Reach("?cannot-pay-value")
+		return
+	}
+	db.SubBalance(icsOrigin, v.BigInt())
+	db.AddBalance(icsContract, v.BigInt())
+	exp[icsOrigin], exp[icsContract] = exp[icsOrigin].Sub(v), exp[icsContract].Add(v)
+	denom := []string{"aISLM", aliasDenom}[zz.Choose("denomSpelling", 2)]
+	ics.grants[icsKey(icsContract.Bytes(), icsOrigin.Bytes())] = &icsGrant{auth: &transfertypes.TransferAuthorization{Allocations: []transfertypes.Allocation{
+		{SourcePort: "transfer", SourceChannel: "channel-0", SpendLimit: sdk.NewCoins(sdk.NewCoin(denom, transfertypes.UnboundedSpendLimit()))}}}}
+	amt := zz.AnyAmount("amount", 100)
+	if err := db.Commit(); err != nil { // Precompile.Run flushes first
+		panic(err)
+	}
+	snap := db.Snapshot()
+	args := []interface{}{"transfer", "channel-0", denom, amt.BigInt(), icsContract, icsReceiver, clienttypes.NewHeight(1, 100), uint64(0), "memo"}
+	_, err := p.Transfer(ctx, icsOrigin, &vm.Contract{CallerAddress: icsContract}, db, icsMethod, args)
+	if err != nil {
+		db.RevertToSnapshot(snap)
+		zz.Reach("?rejected")
+	} else {
+		zz.Assert(len(ics.msgs) == 1 && ics.msgs[0].Token.Denom == "aISLM" && ics.msgs[0].Token.Amount.Equal(amt), "the transfer module moved the coin the alias stands for")
+		exp[icsContract], exp[icsEscrow] = exp[icsContract].Sub(amt), exp[icsEscrow].Add(amt)
+		zz.Reach("transferred")
+	}
+	if err := db.Commit(); err != nil {
+		panic(err)
+	}
+	zz.Assert(bank.supply.Equal(supply0), "the call leaves the supply as the native message would (unchanged), whichever way the denomination is spelled")
+	for _, a := range []common.Address{icsOrigin, icsContract, icsEscrow} {
+		zz.Assert(bank.get(a).Equal(exp[a]), "every bank balance ends where the native message would leave it")
+	}
+	zz.Reach("end")
+}
